@@ -338,6 +338,8 @@ def render_fragment(rng, g, nodes, desc, start=None, opts=None):
     closures = [tuple(e) for e in sub.edges if frozenset(e) not in tree]
     pool = RING_POOL[:]
     rng.shuffle(pool)
+    if len(closures) > len(pool):       # heavily cyclic fragment: every ring number stays unique within the text
+        pool = [m for m in range(13, 100) if m not in RING_POOL][:len(closures) - len(pool)] + pool
     ring_at = {n: [] for n in nodes}
     for (a, b) in closures:
         if idx[a] > idx[b]:
@@ -520,7 +522,7 @@ def base_to_ast(rng, base, start=None, trailing=None):
         i, j = idx[a], idx[b]
         used_m = {m for (x, y, m) in open_iv if not (y < i or x > j)}
         pct = rng.random() < 0.3
-        poolm = [m for m in (range(10, 100) if pct else range(1, 10)) if m not in used_m]
+        poolm = [m for m in (range(10, 100) if pct else range(0, 10)) if m not in used_m]
         if not poolm:
             pct = True
             poolm = [m for m in range(10, 100) if m not in used_m]
